@@ -51,6 +51,55 @@ func c15Check[T any](e T, want int) {
 	})
 	vAssert(rerr == nil, "replay-ok")
 	vAssert(seenV2 == 1, "typed-upcast-source-matches-stored-name")
+	// the upcasting replay is a view: afterwards the record is still selected by its own name
+	byName := 0
+	perr := bus3.Replay(ctx, OffsetOldest, func(se *StoredEvent) error {
+		if se.Type == EventType(e) {
+			byName++
+		}
+		return nil
+	})
+	vAssert(perr == nil && byName == 1, "replay-with-EventType-comparison-matches-stored-name")
+	bus4 := New(WithStore(st))
+	got = 0
+	vAssert(SubscribeWithReplay(ctx, bus4, "sub-2", func(x T) { got++ }) == nil, "subscribe-ok")
+	vAssert(got == 1, "typed-replay-subscription-matches-stored-name")
+	vCover("checked")
+}
+
+//verif:entry property=C15 tier=both bounds="a type whose EventTypeName depends on the value: K events with arbitrary (SMT string) names on one bus; each is stored under the name EventType reports for that very value" cover="checked" K_quick=2 K_thorough=3
+func harnessC15ValueDependentNames() {
+	K := vParam("K", 2)
+	ctx := context.Background()
+	st := NewMemoryStore()
+	bus := New(WithStore(st))
+	names := make([]string, K)
+	for i := range names {
+		names[i] = vStr("dyn-name")
+		e := evDyn{Name: names[i], N: i}
+		vAssert(EventType(e) == names[i], "stored-type-is-EventType")
+		Publish(bus, e)
+	}
+	evs, _, _ := st.Read(ctx, OffsetOldest, 0)
+	vAssert(len(evs) == K, "persisted")
+	for i := range evs {
+		vAssert(evs[i].Type == names[i], "stored-type-is-EventType")
+	}
+	probe := vPick(K)
+	sel := 0
+	err := bus.Replay(ctx, OffsetOldest, func(se *StoredEvent) error {
+		if se.Type == EventType(evDyn{Name: names[probe]}) {
+			sel++
+		}
+		return nil
+	})
+	same := 0
+	for i := range names {
+		if names[i] == names[probe] {
+			same++
+		}
+	}
+	vAssert(err == nil && sel == same, "replay-with-EventType-comparison-matches-stored-name")
 	vCover("checked")
 }
 
